@@ -10,7 +10,14 @@ seed = args[0]
 patch = os.path.join(seed, "patch.diff") if os.path.isdir(seed) else seed
 props = args[1:]
 assert subprocess.run(["git", "-C", "/repo", "status", "--porcelain", "--untracked-files=no"], capture_output=True, text=True).stdout.strip() == "", "/repo dirty"
-subprocess.run(["git", "-C", "/repo", "apply", os.path.abspath(patch)], check=True)
+# hooks added after a seed was written move its context lines: fall back to patch(1) with fuzz
+if subprocess.run(["git", "-C", "/repo", "apply", os.path.abspath(patch)]).returncode != 0:
+    r = subprocess.run(["patch", "-p1", "--fuzz=3", "--no-backup-if-mismatch", "-i", os.path.abspath(patch)], cwd="/repo", capture_output=True, text=True)
+    if r.returncode != 0:
+        subprocess.run(["git", "-C", "/repo", "checkout", "--", "."])
+        subprocess.run("git -C /repo status --porcelain | grep '^??' | grep -E '\\.(rej|orig)$' | cut -c4- | xargs -r -I{} rm -f /repo/{}", shell=True)
+        print("%s: patch does not apply to the current tree:\n%s" % (os.path.basename(seed.rstrip('/')), r.stdout[-600:]))
+        sys.exit(3)
 try:
     for p in props:
         r = subprocess.run(["./check", p, "--tier", tier], cwd="/verif", capture_output=True, text=True)
